@@ -560,6 +560,58 @@ def prof_addrtype(g, n):
         out.append(case({"config": cfg, "objects": objs}, pick_syntax(g, (7, 2, 1, 1)), "addrtype"))
     return out
 
+def prof_pow2(g, n):
+    """The largest absolute address is a power of two (or one off it) and is only reached as a sum at run
+    time (block offset + address, last repeat index, nested blocks); the object address type is wide
+    enough. This is where the choice of the internal address type (find_best_internal_address) is tight."""
+    out = []
+    for i in range(n):
+        g.reset_names()
+        kbits = g.pick([7, 8, 8, 15, 16, 16, 31, 32])
+        top = (1 << kbits) + g.pick([0, 0, 0, -1, 1])
+        wide = {7: ["i16", "u8", "u16"], 8: ["u16", "i16", "u32"], 15: ["u16", "i32"], 16: ["u32", "i32"], 31: ["u32", "i64"], 32: ["i64"]}[kbits]
+        t = g.pick(wide)
+        negative = t.startswith("i") and g.chance(0.4)
+        shape = g.pick(["block", "repeat", "nested", "block_repeat", "neg_stride"])
+        name = g.fresh(["Reg", "Obj", "Thing"])
+        kind = g.pick(["register", "register", "command"])
+        def leaf(addr, rep=None, nm=None):
+            o = {"kind": kind, "name": nm or name, "address": str(addr)}
+            if kind == "register":
+                o.update({"size_bits": 8, "fields": []})
+            if rep:
+                o["repeat"] = rep
+            return o
+        half = top // 2
+        if shape == "block":
+            off = g.pick([half, top - half, g.r.randint(1, top - 1)])
+            objs = [{"kind": "block", "name": "Blk", "address_offset": str(off), "objects": [leaf(top - off)]}]
+        elif shape == "repeat":
+            cnt = g.r.randint(2, 4)
+            st = g.pick([1, 2, 16, max(1, top // 16)])
+            objs = [leaf(top - (cnt - 1) * st, {"count": str(cnt), "stride": str(st)})]
+        elif shape == "neg_stride":
+            cnt = g.r.randint(2, 4)
+            st = g.pick([1, 2, 16])
+            objs = [{"kind": "block", "name": "Blk", "address_offset": str(half), "objects": [
+                leaf(top - half, {"count": str(cnt), "stride": str(-st)})]}]
+        elif shape == "nested":
+            o1 = g.r.randint(1, max(1, top // 3)); o2 = g.r.randint(1, max(1, top // 3))
+            objs = [{"kind": "block", "name": "Outer", "address_offset": str(o1), "objects": [
+                {"kind": "block", "name": "Inner", "address_offset": str(o2), "objects": [leaf(top - o1 - o2)]}]}]
+        else:  # block_repeat: the block's own last instance lands on the boundary
+            cnt = g.r.randint(2, 3)
+            st = g.pick([half // max(1, cnt - 1), 16, 1]) or 1
+            objs = [{"kind": "block", "name": "Blk", "address_offset": str(top - (cnt - 1) * st),
+                     "repeat": {"count": str(cnt), "stride": str(st)}, "objects": [leaf(0)]}]
+        if negative:
+            objs.append(leaf(-g.r.randint(1, 3), nm="Low"))
+        if g.chance(0.3):
+            objs.append(leaf(g.r.randint(0, 5), nm="Zero"))
+        cfg = {"register_address_type": t, "command_address_type": t, "buffer_address_type": t}
+        out.append(case({"config": cfg, "objects": objs}, pick_syntax(g, (7, 2, 1, 1)), "addrtype"))
+    return out
+
 
 _cases_for_base2 = cases_for
 
@@ -571,9 +623,9 @@ def cases_for(prop, tier, seed):
     if prop == "C12":
         return CORPUS.get(prop, []) + prof_collide(g, 700 * k) + prof_mixed(g, 150 * k, depth=2, neg=True, field_kw={"conv_p": 0.05})
     if prop == "C13":
-        return CORPUS.get(prop, []) + prof_addrtype(g, 700 * k) + prof_mixed(g, 200 * k, depth=3, neg=True, field_kw={"conv_p": 0.05}, block_ref_p=0.1)
+        return CORPUS.get(prop, []) + prof_addrtype(g, 600 * k) + prof_pow2(g, 120 * k) + prof_mixed(g, 200 * k, depth=3, neg=True, field_kw={"conv_p": 0.05}, block_ref_p=0.1)
     if prop == "C04":
-        return CORPUS.get(prop, []) + prof_mixed(g, 400 * k, depth=3, neg=True, field_kw={"conv_p": 0.05}, block_ref_p=0.15, repeat_p=0.5)
+        return CORPUS.get(prop, []) + prof_mixed(g, 340 * k, depth=3, neg=True, field_kw={"conv_p": 0.05}, block_ref_p=0.15, repeat_p=0.5) + prof_pow2(g, 60 * k)
     return _cases_for_base2(prop, tier, seed)
 
 
